@@ -63,6 +63,13 @@ func runC13(c *Ctx) []Obligation {
 			Assume: []Lit{T(`^invoke types\.Ctx\.IsPrevCtx\(ctx\)$`)}, Target: CallTo(`\.Add\(|LRUCache\.`), Why: "a previous-height context never fills the cache"},
 		{Prop: P, ID: "withctx.remove-bypasses-prev", Fn: "(*types.Cache).RemoveWithCtx",
 			Assume: []Lit{T(`^invoke types\.Ctx\.IsPrevCtx\(ctx\)$`)}, Target: CallTo(`\.Remove\(|LRUCache\.`), Why: "a previous-height context never evicts from the cache"},
+		// every historical context handed out by PrevCtx is marked, on the cache-miss AND the cache-hit path
+		{Prop: P, ID: "prevctx.returns-marked", Fn: "(types.Context).PrevCtx", Assume: []Lit{F(`^eq\(\(types\.Context\)\.BlockHeight\(c\), height\)$`)},
+			Target: RetNotMatch(0, `^\(types\.Context\)\.SetPrevCtx\(.*, true\)$|^assert<types\.Context>\(\(types\.Context\)\.getFromCache\(c, fmt\.Sprintf\("%d", \[height\]\)\)#0\)$|^zero:types\.Context$`),
+			Why: "a context for another height is either freshly built and marked SetPrevCtx(true), or the cached (already marked) one as it is; never a rebuilt, unmarked copy"},
+		{Prop: P, ID: "prevctx.cache-holds-marked", Fn: "(types.Context).PrevCtx",
+			Target: CallTo(`^\(types\.Context\)\.addToCache\(`).Except(`^\(types\.Context\)\.addToCache\(c, fmt\.Sprintf\("%d", \[height\]\), \(types\.Context\)\.SetPrevCtx\(.*, true\)\)$`),
+			Why: "what enters the context cache is the marked context, under the requested height"},
 		// query context
 		{Prop: P, ID: "queryCustom.historical-gets-prevctx", Fn: fnQueryCustom,
 			Assume: []Lit{F(`^eq\(\(types\.Context\)\.BlockHeight\(.*\), (var:)?req\.Height\)$`)},
